@@ -716,7 +716,11 @@ class Predicate(metaclass=abc.ABCMeta):
             return self.merge(self, other, And)
 
         def __or__(self, other: 'dsl.Predicate.Factors') -> 'dsl.Predicate.Factors':
-            return self.merge(self, other, Or)
+            # a disjunction constrains a table only if both of its operands do
+            common = self.keys() & other.keys()
+            return self.merge(
+                self.__class__(*(self[k] for k in common)), self.__class__(*(other[k] for k in common)), Or
+            )
 
         def __getitem__(self, table: 'dsl.Table') -> 'dsl.Predicate':
             return self._items[table]
